@@ -38,7 +38,7 @@ fn boundaries(cfg: &ChunkerCfg, prefix: &[u8], s: &[u8], reads: &ReadScript) -> 
     Ok(out)
 }
 
-fn run_case(c: &Case, rec: &mut CaseRec) -> Result<(), String> {
+pub fn run_case(c: &Case, rec: &mut CaseRec) -> Result<(), String> {
     if !c.cfg.is_valid() {
         rec.excluded = Some("invalid_config".into());
         return Ok(());
